@@ -470,7 +470,7 @@ func buildUniverse() *universe {
 	sv := lit("svalue", false)
 	u.i7 = sv // the value written by assignments: distinct from every element
 	a := arr(4, false, h1, h2, h3)                                     // 5: mutable [1,2,3] with spare capacity
-	ia := imm(arr(4, true, h1, h2, h3))                                // 6: immutable([1,2,3])
+	ia := imm(arr(6, true, h1, h2, h3))                                // 6: immutable([1,2,3]) with spare capacity
 	ian := imm(arr(2, true, arr(2, true, h1, h2), mp(true, []string{"a"}, h1))) // 7: immutable([[1,2],{a:1}])
 	mm := mp(false, []string{"a", "b"}, h1, arr(1, true, h5))          // 8: {a:1, b:[5]}
 	im := imm(mp(true, []string{"a", "b"}, arr(1, true, h1), h2))      // 9: immutable({a:[1], b:2})
